@@ -680,10 +680,11 @@ OP(bc_aes_cbc) {
  * delta < 0 must be reported (and nothing written beyond the block: sanitizer); delta >= 0 must succeed. ---- */
 static long cap_delta = 0;
 static int cap_log = 0;
-static void cap_note(const char *what, size_t need, int ok, int same) {
-	out_int(cap_delta); out_int(ok); out_int(same);
-	if (cap_log) tr_printf("CAP %s need=%zu delta=%ld ok=%d same=%d\n", what, need, cap_delta, ok, same);
+static void cap_note_delta(const char *what, size_t need, long delta, int ok, int same) {
+	out_int(delta); out_int(ok); out_int(same);
+	if (cap_log) tr_printf("CAP %s need=%zu delta=%ld ok=%d same=%d\n", what, need, delta, ok, same);
 }
+static void cap_note(const char *what, size_t need, int ok, int same) { cap_note_delta(what, need, cap_delta, ok, same); }
 #define CAPRUN(WHAT, NEEDVAR, CALL_BIG, CALL_EXACT) do { \
 	size_t ol = sizeof(buf); int r = 0; \
 	CALL_BIG; \
@@ -734,6 +735,48 @@ OP(cap_ecies_dec) {
 	size_t cl = sizeof(buf2);
 	if (cp_ecies_enc(PR[0], buf2, &cl, msg, msg_len, ec_q) != RLC_OK) { out_int(-2); return; }
 	CAPRUN("cp_ecies_dec", need, W(r = cp_ecies_dec(buf, &ol, PR[0], buf2, cl, ec_d)), W(r = cp_ecies_dec(o, &ol, PR[0], buf2, cl, ec_d)));
+}
+/* recodings: the length-in/length-out parameter counts one-byte elements.  The block handed to the second call ends
+ * exactly at its capacity (eight bytes of slack in front, so that capacity zero is a pointer to no storage at all). */
+#define CAPREC(WHAT, NEED_OF_OL, CALL) do { \
+	size_t ol = sizeof(buf); uint8_t *o = buf; \
+	memset(buf, 0, sizeof(buf)); \
+	CALL; \
+	if (err_get_code() != RLC_OK) { out_int(-1); break; } \
+	size_t ol_big = ol, need = (size_t)(NEED_OF_OL); \
+	long cap = (long)need + cap_delta; if (cap < 0) cap = 0; \
+	uint8_t *base_ = (uint8_t *)sim_sys_malloc((size_t)cap + 8); \
+	o = base_ + 8; ol = (size_t)cap; \
+	int thrown_ = 0; \
+	RLC_TRY { CALL; } RLC_CATCH_ANY { thrown_ = 1; } \
+	int ok_ = (!thrown_ && err_get_code() == RLC_OK); \
+	cap_note_delta(WHAT, need, cap - (long)need, ok_, ok_ && ol == ol_big && memcmp(o, buf, need <= (size_t)cap ? need : (size_t)cap) == 0); \
+	sim_sys_free(base_); \
+} while (0)
+#define REC_W ((size_t)(2 + B[6]->dp[0] % 7))
+OP(cap_rec_naf) { size_t w = REC_W; CAPREC("bn_rec_naf", ol, W(bn_rec_naf((int8_t *)o, &ol, B[0], w))); }
+OP(cap_rec_win) { size_t w = REC_W; CAPREC("bn_rec_win", ol, W(bn_rec_win(o, &ol, B[0], w))); }
+OP(cap_rec_slw) { size_t w = REC_W; CAPREC("bn_rec_slw", ol, W(bn_rec_slw(o, &ol, B[0], w))); }
+OP(cap_rec_reg) {
+	size_t w = REC_W, n = RLC_MAX(bn_bits(B[0]), 1) + (size_t)((B[6]->dp[0] >> 8) % 3);	/* "a positive integer": a length of zero is outside the documented domain */
+	CAPREC("bn_rec_reg", ol, W(bn_rec_reg((int8_t *)o, &ol, B[0], n, w)));
+}
+/* the joint sparse form is written as two rows at a distance of max(bits) + 1: the storage it needs ends with the
+ * last column of the second row */
+OP(cap_rec_jsf) {
+	shorter_second();
+	const bn_st *k = ((B[6]->dp[0] >> 5) & 1) ? R[3] : B[0], *l = ((B[6]->dp[0] >> 5) & 1) ? B[0] : R[3];
+	size_t off = RLC_MAX(bn_bits(k), bn_bits(l)) + 1;
+	CAPREC("bn_rec_jsf", off + ol, W(bn_rec_jsf((int8_t *)o, &ol, k, l)));
+}
+/* tau-adic recodings for Koblitz curves (u = +-1 is the curve parameter, m the field degree) */
+OP(cap_rec_tnaf) {
+	size_t w = REC_W; int8_t u = ((B[6]->dp[0] >> 9) & 1) ? 1 : -1; size_t m = ((B[6]->dp[0] >> 10) & 1) ? 283 : 233;
+	CAPREC("bn_rec_tnaf", ol, W(bn_rec_tnaf((int8_t *)o, &ol, B[0], u, m, w)));
+}
+OP(cap_rec_rtnaf) {
+	size_t w = REC_W; int8_t u = ((B[6]->dp[0] >> 9) & 1) ? 1 : -1; size_t m = ((B[6]->dp[0] >> 10) & 1) ? 283 : 233;
+	CAPREC("bn_rec_rtnaf", ol, W(bn_rec_rtnaf((int8_t *)o, &ol, B[0], u, m, w)));
 }
 OP(rand_reseed) { W(rand_seed(msg, msg_len); rand_bytes(buf, 40)); out_bytes(buf, 40); }
 
@@ -1037,6 +1080,7 @@ static const op_t ops[] = {
 	E(ep_read_bin, 0), E(ep_rand, 0), E(ep_blind, 0), E(ep_on_curve, 0), E(ep_tab, 0),
 	E(md_kdf, 0), E(md_mgf, 0), E(md_hmac, 0), E(md_xmd, 0), E(bc_aes_cbc, 0), E(rand_reseed, 0), E(cap_aes_enc, 0), E(cap_aes_dec, 0), E(cap_rsa_enc, 0), E(cap_rsa_dec, 0),
 	E(cap_rsa_sig, 0), E(cap_ecies_enc, 0), E(cap_ecies_dec, 0),
+	E(cap_rec_naf, 0), E(cap_rec_win, 0), E(cap_rec_slw, 0), E(cap_rec_reg, 0), E(cap_rec_jsf, 0), E(cap_rec_tnaf, 0), E(cap_rec_rtnaf, 0),
 	E(mpc_sss, 0), E(mpc_mt, 0),
 	E(cp_rsa_enc_dec, 0), E(cp_rsa_sig_ver, 0), E(cp_rsa_gen_small, 0), E(cp_phpe, 0), E(cp_ecdsa, 0),
 	E(cp_ecdsa_gen, 0), E(cp_ecss, 0), E(cp_ecdh, 0), E(cp_ecmqv, 0), E(cp_ecies, 0), E(cp_vbnn, 0), E(cp_pokdl, 0),
